@@ -49,6 +49,6 @@ ID="$1"; shift
 ulimit -c 0
 case "$ID" in
   C12) build_sched; exec ./bin/check-sched "$ID" "$@" ;;
-  C11) build_plain; build_race; exec ./bin/check "$ID" "$@" ;;
+  C11) build_plain; build_sched; build_race; exec ./bin/check "$ID" "$@" ;;
   *)   build_plain; exec ./bin/check "$ID" "$@" ;;
 esac
